@@ -93,7 +93,7 @@ def main():
                                        "trace validation of recorded executions and replay of TLC-enumerated histories"}],
         "checks": checks,
         "not_applicable": na,
-        "notes": "fix: commits in /repo and known findings are listed in /verif/known_findings.json; see DESIGN.md.",
+        "notes": "fix: commits in /repo and known findings are listed in /verif/known_findings.json; see DESIGN.md. Run the thorough tier one property at a time (10-14 GB per run, DESIGN.md section 6.1).",
     }
     with open(os.path.join(ROOT, "MANIFEST.json"), "w") as f:
         json.dump(man, f, indent=1)
